@@ -105,9 +105,16 @@ class C03(Spec):
     lean_targets = ("Earverif.Props.C03", "c02driver")
     props_module = "Earverif.Props.C03"
     theorems = tuple("Earverif.Timeline." + t for t in (
-        "bpc_eq_gainAt", "interp_ramp_closed_form", "ceil_eq_ceilQ", "obj_all_spec", "bpc_run_spec",
+        "bpc_eq_gainAt", "interp_ramp_closed_form", "ceil_eq_ceilQ", "obj_all_spec", "fixed_all_spec", "bpc_run_spec",
         "C03_gain_timeline", "C03_silence_outside_blocks", "gainAt_silent_iff", "C03_sum_of_items_linear",
-        "exBlocks_accepted"))
+        "C03_render_formula", "C03_direct_zero_latency", "C03_diffuse_group_delay", "exBlocks_accepted",
+        "exSession_ok")) + ("Earverif.Renderer.render_refines_spec", "Earverif.Stream.vbs_fir_eq",
+                            "Earverif.Stream.aligner_run_eq")
+    HYPOTHESES_NOTE = (
+        "theorems still stated with component facts as hypotheses: none - C03_render_formula (out[s] = direct(s) + "
+        "sum_k f[k] diffuse(s+(N-1)//2-k) + ds(s) + hoa(s) for every blocking) rests on render_refines_spec, proved "
+        "outright under SessionOK (block_size >= 1, accepted timelines). Not under the kernel: FFT convolver (FIR "
+        "stand-in), gain calculators (captured), track processors other than DirectTrackSpec.")
     trusted_base = c02.C02.trusted_base + (
         "specification Earverif/Model/RenderSpec.lean (gainAt/out) written from the property text; compared with "
         "the real Renderer on every run; the search reference (harness/c03.py: reference) is a second, "
@@ -128,6 +135,7 @@ class C03(Spec):
         return dict(small=400, long=250, run=150, search=1500)
 
     def correspond(self, ctx):
+        ctx.notes.append(self.HYPOTHESES_NOTE)
         driver = Driver("c02driver", "Earverif.Driver.C02")
         bud = self.budgets(ctx)
         rng = ctx.rng
@@ -171,23 +179,22 @@ class C03(Spec):
 SPEC = C03()
 
 REGISTRY = dict(
-    text="PARTIAL: Lean theorem Earverif.Timeline.bpc_eq_gainAt proves that BlockProcessingChannel with "
-    "InterpretObjectMetadata (literal models of the queue, the three-way last_sample branch, the underrun check, "
-    "ProcessingBlock.overlap, FixedGains/InterpGains, block_start_end, jumpPosition/interpolationLength/contiguity), fed "
-    "any partition of the item's sample stream, for every accepted timeline (ObjAccepted: interpreter accepts, "
-    "non-negative durations, first block not before 0) raises nothing and adds x[s]*gainAt(s) to row s, where gainAt is "
-    "the sample-by-sample specification (constant / linear ramp p=(s-start*fs)/((target-start)*fs) / silence; "
-    "interp_ramp_closed_form, ceil_eq_ceilQ, obj_all_spec: the yielded blocks are ordered and disjoint). Corollaries "
-    "C03_gain_timeline (zero latency of the gain path), C03_silence_outside_blocks, C03_sum_of_items_linear. Not "
-    "proved: the DirectSpeakers/HOA interpreter link (interpFixed), the decorrelator group-delay statement (needs "
-    "FIR-with-history = FIR), the aligner and the composed Renderer (see C02: render_refines_spec_partial). These are "
-    "covered by correspondence: the real Renderer is compared on every run with the Lean specification "
-    "Earverif.RenderSpec.out (exact rationals) and with the transliterated model, and the search compares it with an "
-    "independent numpy reference written from the property text.",
+    text="FULL: Lean theorem Earverif.Timeline.C03_render_formula (from Earverif.Renderer.render_refines_spec) proves "
+    "that for every configuration with block_size >= 1, every mix of accepted items, every input and every blocking the "
+    "model of Renderer.render/get_tail returns, at every output sample s, direct(s) + sum_k f[k]*diffuse(s+(N-1)//2-k) + "
+    "ds(s) + hoa(s), each term the exact sum over items of input sample x gainAt(s); gainAt is the sample-by-sample "
+    "specification (constant within a block, linear ramp p=(s-start*fs)/((target-start)*fs) over the interpolation "
+    "period of a contiguous block, silence outside blocks). Component theorems: bpc_eq_gainAt (BlockProcessingChannel + "
+    "InterpretObjectMetadata for all partitions and accepted timelines, no underrun), fixed_all_spec (DirectSpeakers/HOA "
+    "interpreters), interp_ramp_closed_form, ceil_eq_ceilQ, obj_all_spec; corollaries C03_gain_timeline, "
+    "C03_silence_outside_blocks, C03_direct_zero_latency, C03_diffuse_group_delay, C03_sum_of_items_linear. The real "
+    "Renderer is compared on every run with the Lean specification RenderSpec.out (exact rationals) and with the "
+    "transliterated model, and the search compares it with an independent numpy reference written from the property text.",
     note="Trusted: Lean kernel; hand transliteration + correspondence harness; captured gains (gain calculators are other "
-    "properties); FFT convolver modelled as FIR. Quantifier limits: durations and interpolationLength >= 0, start >= 0 "
-    "(negative start raises 'metadata underrun' in the real code).",
-    technique="Lean 4 refinement proof (BlockProcessingChannel = gainAt for all partitions and accepted timelines) + "
-    "differential correspondence of model and specification with the real Renderer + independent numpy reference",
+    "properties); FFT convolver modelled as FIR (tied by correspondence). Quantifier limits: durations and "
+    "interpolationLength >= 0, start >= 0 (negative start raises 'metadata underrun' in the real code); DirectTrackSpec "
+    "inputs.",
+    technique="Lean 4 refinement proof of the composed renderer against a sample-by-sample specification + differential "
+    "correspondence of model and specification with the real Renderer + independent numpy reference",
     design_ref="DESIGN.md section 4, C02/C03",
 )
